@@ -24,9 +24,19 @@ theorem locate_mem (R : List (Int × Nat)) (f : Nat) (t : Int) (off : Nat) (h : 
     · obtain ⟨n, hm, hl⟩ := ih _ h
       exact ⟨n, List.mem_cons_of_mem _ hm, hl⟩
 
+theorem locate_off_le (R : List (Int × Nat)) (f : Nat) (t : Int) (off : Nat) (h : locate R f = some (t, off)) : off ≤ f := by
+  induction R generalizing f with
+  | nil => simp [locate] at h
+  | cons r rest ih =>
+    obtain ⟨t0, n0⟩ := r
+    simp only [locate] at h
+    split at h
+    · simp only [Option.some.injEq, Prod.mk.injEq] at h; omega
+    · have := ih _ h; omega
+
 theorem locate_step (R : List (Int × Nat)) (hR : IncTells R) (f f' : Nat) (hff : f < f') (t t' : Int) (off off' : Nat)
     (h : locate R f = some (t, off)) (h' : locate R f' = some (t', off')) :
-    t < t' ∨ (t = t' ∧ off' = off + (f' - f)) := by
+    (t < t' ∧ off' < f' - f) ∨ (t = t' ∧ off' = off + (f' - f)) := by
   induction R generalizing f f' with
   | nil => simp [locate] at h
   | cons r rest ih =>
@@ -42,12 +52,13 @@ theorem locate_step (R : List (Int × Nat)) (hR : IncTells R) (f f' : Nat) (hff 
         right; exact ⟨rfl, by omega⟩
       · simp only [h2, if_false] at h'
         obtain ⟨n, hm, _⟩ := locate_mem rest _ _ _ h'
-        left; exact hp.1 _ hm
+        have := locate_off_le rest _ _ _ h'
+        left; exact ⟨hp.1 _ hm, by omega⟩
     · have h2 : ¬ f' < n0 := by omega
       simp only [h1, h2, if_false] at h h'
       have := ih hp.2 (f - n0) (f' - n0) (by omega) h h'
-      rcases this with h3 | ⟨h3, h4⟩
-      · left; exact h3
+      rcases this with ⟨h3, h4⟩ | ⟨h3, h4⟩
+      · left; exact ⟨h3, by omega⟩
       · right; exact ⟨h3, by omega⟩
 
 theorem locate_lt (R : List (Int × Nat)) (f : Nat) (h : f < (R.map (·.2)).sum) : ∃ r, locate R f = some r := by
@@ -102,7 +113,7 @@ theorem mapAppend_last (pre : List (Int × List Nat)) (k : Int) (vs : List Nat) 
 def Chain (c : Nat) : List (Int × Nat) → Prop
   | [] => True
   | [_] => True
-  | (k, v) :: (k', v') :: rest => (k < k' ∨ (k = k' ∧ v' = v + c)) ∧ Chain c ((k', v') :: rest)
+  | (k, v) :: (k', v') :: rest => ((k < k' ∧ v' < c) ∨ (k = k' ∧ v' = v + c)) ∧ Chain c ((k', v') :: rest)
 
 /-- the located frames a grouping stands for -/
 def flat (acc : List (Int × List Nat)) : List (Int × Nat) := acc.flatMap (fun e => e.2.map (fun v => (e.1, v)))
@@ -113,7 +124,7 @@ def Grouped (c : Nat) (acc : List (Int × List Nat)) : Prop :=
 
 /-- how the next located frame `(k, v)` continues a grouping -/
 def Continues (c : Nat) (acc : List (Int × List Nat)) (k : Int) (v : Nat) : Prop :=
-  acc = [] ∨ ∃ pre k0 a len, acc = pre ++ [(k0, ap a c (len + 1))] ∧ (k0 < k ∨ (k0 = k ∧ v = a + (len + 1) * c))
+  acc = [] ∨ ∃ pre k0 a len, acc = pre ++ [(k0, ap a c (len + 1))] ∧ ((k0 < k ∧ v < c) ∨ (k0 = k ∧ v = a + (len + 1) * c))
 
 /-- the first located frame (if any) continues the grouping -/
 def ContinuesHead (c : Nat) (acc : List (Int × List Nat)) : List (Int × Nat) → Prop
@@ -133,21 +144,23 @@ theorem flat_single (k : Int) (vs : List Nat) : flat [(k, vs)] = vs.map (fun v =
 /-- **The dict of `_retFrameSetMap`**: folding a chain of located frames into the dict gives a grouping (keys strictly
 increasing — hence already sorted —, buffers arithmetic progressions) that flattens back to the located frames. -/
 theorem foldMap_grouped (c : Nat) (locs : List (Int × Nat)) :
-    ∀ acc, Grouped c acc → Chain c locs →
+    ∀ acc, Grouped c acc → (∀ e ∈ acc.tail, e.2.headD 0 < c) → Chain c locs →
       ContinuesHead c acc locs →
-      Grouped c (foldMap acc locs) ∧ flat (foldMap acc locs) = flat acc ++ locs := by
+      Grouped c (foldMap acc locs) ∧ flat (foldMap acc locs) = flat acc ++ locs ∧
+        (∀ e ∈ (foldMap acc locs).tail, e.2.headD 0 < c) := by
   induction locs with
-  | nil => intro acc hg _ _; simp [foldMap, hg]
+  | nil => intro acc hg htl _ _; simp only [foldMap]; exact ⟨hg, by simp, htl⟩
   | cons kv rest ih =>
     obtain ⟨k, v⟩ := kv
-    intro acc hg hch hcont
+    intro acc hg htl hch hcont
     simp only [ContinuesHead] at hcont
     simp only [foldMap]
     -- the grouping after inserting (k, v), and how the next frame continues it
     have key : ∃ acc', mapAppend acc k v = acc' ∧ Grouped c acc' ∧ flat acc' = flat acc ++ [(k, v)] ∧
+        (∀ e ∈ acc'.tail, e.2.headD 0 < c) ∧
         ∃ pre a len, acc' = pre ++ [(k, ap a c (len + 1))] ∧ v = a + len * c := by
       rcases hcont with rfl | ⟨pre, k0, a, len, rfl, hk⟩
-      · refine ⟨[(k, [v])], rfl, ⟨by simp, ?_⟩, by simp [flat], [], v, 0, by simp [ap_one], by simp⟩
+      · refine ⟨[(k, [v])], rfl, ⟨by simp, ?_⟩, by simp [flat], by simp, [], v, 0, by simp [ap_one], by simp⟩
         intro e he; simp at he; subst he; exact ⟨v, 0, by simp [ap_one]⟩
       · obtain ⟨hpw, hbuf⟩ := hg
         simp only [List.map_append, List.map_cons, List.map_nil] at hpw
@@ -155,13 +168,13 @@ theorem foldMap_grouped (c : Nat) (locs : List (Int × Nat)) :
           intro e he
           have := (List.pairwise_append.1 hpw).2.2 e.1 (List.mem_map_of_mem he) k0 (by simp)
           exact this
-        rcases hk with hlt | ⟨rfl, hv⟩
+        rcases hk with ⟨hlt, hvc⟩ | ⟨rfl, hv⟩
         · have hne : ∀ e ∈ pre ++ [(k0, ap a c (len + 1))], e.1 ≠ k := by
             intro e he
             rcases List.mem_append.1 he with h | h
             · have := hpre e h; omega
             · simp at h; subst h; simp; omega
-          refine ⟨_, mapAppend_notin _ k v hne, ⟨?_, ?_⟩, ?_, pre ++ [(k0, ap a c (len + 1))], v, 0, by simp [ap_one], by simp⟩
+          refine ⟨_, mapAppend_notin _ k v hne, ⟨?_, ?_⟩, ?_, ?_, pre ++ [(k0, ap a c (len + 1))], v, 0, by simp [ap_one], by simp⟩
           · simp only [List.map_append, List.map_cons, List.map_nil]
             apply List.pairwise_append.2
             refine ⟨hpw, by simp, ?_⟩
@@ -176,15 +189,33 @@ theorem foldMap_grouped (c : Nat) (locs : List (Int × Nat)) :
             · exact hbuf e h
             · simp at h; subst h; exact ⟨v, 0, by simp [ap_one]⟩
           · rw [flat_append, flat_single]; simp
+          · intro e he
+            rw [List.tail_append_of_ne_nil (by simp)] at he
+            rcases List.mem_append.1 he with h | h
+            · exact htl e h
+            · simp at h; subst h; simpa using hvc
         · have hne : ∀ e ∈ pre, e.1 ≠ k0 := fun e he => by have := hpre e he; omega
-          refine ⟨_, mapAppend_last pre k0 _ v hne, ⟨?_, ?_⟩, ?_, pre, a, len + 1, by rw [hv, ap_snoc], hv⟩
+          refine ⟨_, mapAppend_last pre k0 _ v hne, ⟨?_, ?_⟩, ?_, ?_, pre, a, len + 1, by rw [hv, ap_snoc], hv⟩
           · simpa using hpw
           · intro e he
             rcases List.mem_append.1 he with h | h
             · exact hbuf e (List.mem_append_left _ h)
             · simp at h; subst h; exact ⟨a, len + 1, by rw [hv, ap_snoc]⟩
           · rw [flat_append, flat_append, flat_single, flat_single]; simp
-    obtain ⟨acc', hma, hg', hflat, pre, a, len, hacc', hva⟩ := key
+          · intro e he
+            have hhd : (ap a c (len + 1) ++ [v]).headD 0 = (ap a c (len + 1)).headD 0 := by
+              simp [ap, List.range_succ_eq_map]
+            cases pre with
+            | nil => simp at he
+            | cons q qs =>
+              simp only [List.cons_append, List.tail_cons] at he htl
+              rcases List.mem_append.1 he with h | h
+              · exact htl e (List.mem_append_left _ h)
+              · simp at h; subst h
+                have := htl (k0, ap a c (len + 1)) (by simp)
+                simp only at this ⊢
+                rw [hhd]; exact this
+    obtain ⟨acc', hma, hg', hflat, htl', pre, a, len, hacc', hva⟩ := key
     rw [hma]
     have hnext : ContinuesHead c acc' rest := by
       cases rest with
@@ -195,15 +226,15 @@ theorem foldMap_grouped (c : Nat) (locs : List (Int × Nat)) :
         simp only [ContinuesHead]
         right
         refine ⟨pre, k, a, len, hacc', ?_⟩
-        rcases hch.1 with h | ⟨h1, h2⟩
-        · left; exact h
+        rcases hch.1 with ⟨h, hv'⟩ | ⟨h1, h2⟩
+        · left; exact ⟨h, hv'⟩
         · right; refine ⟨h1, ?_⟩; rw [h2, hva]; ring
     have hch' : Chain c rest := by
       cases rest with
       | nil => trivial
       | cons kv' rest' => obtain ⟨k', v'⟩ := kv'; exact hch.2
-    obtain ⟨h1, h2⟩ := ih acc' hg' hch' hnext
-    exact ⟨h1, by rw [h2, hflat]; simp⟩
+    obtain ⟨h1, h2, h3⟩ := ih acc' hg' htl' hch' hnext
+    exact ⟨h1, by rw [h2, hflat]; simp, h3⟩
 
 
 /-! ### `sorted(keys)` of a grouping is the grouping -/
@@ -258,8 +289,8 @@ theorem chain_of_frames (R : List (Int × Nat)) (hR : IncTells R) (c : Nat) (hc 
           have h1' := hloc (a + c) (by omega) h2
           rw [hl] at h1; rw [hl'] at h1'
           have := locate_step R hR a (a + c) (by omega) k k' v v' h1 h1'
-          rcases this with h | ⟨h, h'⟩
-          · left; exact h
+          rcases this with ⟨h, hb⟩ | ⟨h, h'⟩
+          · left; exact ⟨h, by omega⟩
           · right; exact ⟨h, by omega⟩
     · rw [rangeList_nil _ _ _ (by omega)]
       simp only [List.map_cons, List.map_nil]
